@@ -45,7 +45,7 @@ def main():
             res['steps']['apply_out'] = o[-800:]
             return res
         t0 = time.time()
-        rc, o = sh('cargo test --workspace --no-fail-fast --offline 2>&1 | tail -400', cwd=wt, env=env)
+        rc, o = sh('cargo test --workspace --no-fail-fast --offline 2>&1', cwd=wt, env=env)
         passed = sum(int(m) for m in re.findall(r'test result: \w+\. (\d+) passed', o))
         failed = sum(int(m) for m in re.findall(r'test result: \w+\. \d+ passed; (\d+) failed', o))
         res['steps']['suite_with_change'] = {'passed': passed, 'failed': failed, 'secs': round(time.time() - t0), 'errors': len(re.findall(r'^error', o, re.M))}
@@ -59,7 +59,6 @@ def main():
         cmd = re.sub(r'CARGO_TARGET_DIR=\S+ ', '', cmd)
         if '--offline' not in cmd:
             cmd = cmd.replace('cargo test', 'cargo test --offline')
-        rc1, o1 = sh(cmd + ' 2>&1 | tail -60; exit ${PIPESTATUS[0]}', cwd=wt, env=env)
         rc1, o1 = sh("bash -c '%s 2>&1 | tail -60; exit ${PIPESTATUS[0]}'" % cmd.replace("'", "'\\''"), cwd=wt, env=env)
         res['steps']['demo_with_change'] = {'exit': rc1, 'tail': o1[-600:]}
         sh('git apply -R %s' % patch, cwd=wt)
